@@ -229,8 +229,8 @@ func TestVF_C10(t *testing.T) {
 		"lazy-postings settings and series batch size (1,3,10000), and 30% of the requests are re-issued later (cache history). " +
 		"oracle: flattened answer == union over blocks of Prometheus NewBlockChunkQuerier(block,mint,maxt).Select(DisableTrimming) with external labels applied, chunks compared as sets of (mint,maxt,encoding,bytes). " +
 		"evaluation = one store answer compared; distinct/non-trivial = (fixture, request) whose reference answer has at least one series")
-	nFix := r.N(8, 36)
-	nReq := r.N(40, 70)
+	nFix := r.N(8, 70)
+	nReq := r.N(40, 80)
 	r.Require(int64(nFix*nReq*4), nFix*nReq/8)
 	r.Assume("request ranges have mint <= maxt; blocks have no tombstones; block meta min/max time bound the samples (as the compactor writes them)")
 	r.Assume("series that become label-identical after external labels override stored ones are one series whose chunks are the union (identical chunks once), as the store's documented merge does")
